@@ -116,7 +116,7 @@ def pack_values(rng, thorough):
 
 def check_kernels(ctx):
     cases = list(CORPUS_A)
-    for _ in range(2500 if ctx.thorough else 350):
+    for _ in range(1500 if ctx.thorough else 250):
         e = gen_undefined(ctx.rng, ctx.rng.randint(1, 5 if ctx.thorough else 4))
         r = ctx.rng.random()
         kind = "init" if r < 0.7 else ("case" if r < 0.85 else ("enum" if r < 0.93 else "arr"))
@@ -468,7 +468,7 @@ def shrink_unit(src, sig):
 
 def check_programs(ctx):
     units = [(s, None) for s in CORPUS_B]
-    for _ in range(600 if ctx.thorough else 80):
+    for _ in range(400 if ctx.thorough else 80):
         units.append(gen_unit(ctx.rng))
     shrunk = 0
     for src, g in units:
